@@ -16,6 +16,7 @@ Tie: correspondence, two streams.
 from __future__ import annotations
 
 import json
+import re
 from collections import Counter
 
 import numpy as np
@@ -116,6 +117,25 @@ def make_functions(opset=None):
         ("ovl", ovl("ovl", "twice", lambda op, a: op.Add(a, a), 1), lambda a: [a + a], 1, 1, {}),
         ("mix", ovl("mix", "", lambda op, a, b: op.Sub(a, b), 2), lambda a, b: [a - b], 2, 1, {}),
         ("mix", ovl("mix", "mul", lambda op, a, b: [op.Mul(a, b), op.Max(a, b)], 2), lambda a, b: [a * b, np.maximum(a, b)], 2, 2, {}),
+    ]
+    # functions as they come out of a FunctionProto / onnx.parser text or a hand-written ir.node(...): the body
+    # *nodes* carry no name, the values do.  Inlined twice, only the per-call-site prefix keeps the value names apart.
+    def parsed(name, body, outs):
+        txt = f'<opset_import: ["" : {opset}], domain: "c18">\n{name} (a0) => ({outs}) {{ {body} }}'
+        return ir.serde.deserialize_function(r.onnx.parser.parse_function(txt))
+
+    def half_named(name, fn, n):
+        f = bf(name, fn, n)
+        for i, node in enumerate(f.graph):
+            if i % 2 == 0:
+                node.name = None
+        return f
+
+    tab += [
+        ("pf_unnamed", parsed("pf_unnamed", "t = Neg(a0) u = Abs(t)", "u"), lambda a: [np.abs(-a)], 1, 1, {}),
+        ("pf_two", parsed("pf_two", "t = Relu(a0) u = Neg(t) w = Add(t, u)", "u, w"),
+         lambda a: [-np.maximum(a, 0), np.maximum(a, 0) - np.maximum(a, 0)], 1, 2, {}),
+        ("hf_mixed", half_named("hf_mixed", lambda op, a: op.Tanh(op.Abs(op.Neg(a))), 1), lambda a: [np.tanh(np.abs(-a))], 1, 1, {}),
     ]
     _FN_CACHE[opset] = tab
     return tab
@@ -267,7 +287,10 @@ def encode(items, out: list[str], done_counter: list[int]):
         elif k == "S":
             out.append(f"B|{it['gname']}|" + ";".join(i["name"] for i in it["inputs"]))
             encode(it["body"], out, done_counter)
-            out.append("E|" + ";".join(str(h) for h in it["rets"]) + "|" + ";".join(at(d) for d in it["declared"]))
+            if it.get("abort"):
+                out.append("A")  # the trace function raises
+            else:
+                out.append("E|" + ";".join(str(h) for h in it["rets"]) + "|" + ";".join(at(d) for d in it["declared"]))
         elif k == "X":
             out.append(f"X|{it['h']}|{at(it.get('name'))}")
         else:
@@ -294,6 +317,8 @@ class RealExec:
         self.gb = r.B.GraphBuilder(self.g)
         self.handles: list = []
         self.done: list = []
+        self.errs: list[str] = []  # refusals caught by the traced program, in order (model: `St.err`)
+        self.scope_changes: list[str] = []  # a refused / aborted call that left a scope stack different
 
     def arg(self, a):
         if a[0] == "r":
@@ -317,9 +342,27 @@ class RealExec:
         return out
 
     def run(self, items, builder):
+        for it in items:
+            if not it.get("fault"):
+                self.run1(it, builder)
+                continue
+            # a call the traced program expects to fail: it catches the exception and goes on with the same builder
+            before = list(builder._scope_stack)
+            raised = True
+            try:
+                self.run1(it, builder)
+                raised = False  # accepted after all (e.g. a pop that finds a leaked scope): the model decides likewise
+            except _Abort:
+                pass
+            except Exception as e:
+                self.errs.append(err_token(e))
+            if raised and list(builder._scope_stack) != before:
+                self.scope_changes.append(f"{it['fault']}: scope stack {[n for n, _ in before]} -> {[n for n, _ in builder._scope_stack]}")
+
+    def run1(self, it, builder):
         ir = self.r.ir
         op = builder.op
-        for it in items:
+        if True:
             k = it["k"]
             if k == "I":
                 self.handles.append(builder.input(it["name"], irdt(it["dt"]), list(it["shape"])))
@@ -366,12 +409,23 @@ class RealExec:
                 ]
                 outs = [ir.Value(name=d) for d in it["declared"]]
 
+                captured: list = []
+
                 def fn(op2, *vals, it=it):
+                    captured.append(op2.builder.graph)
                     self.handles += list(vals)
                     self.run(it["body"], op2.builder)
+                    if it.get("abort"):
+                        raise _Abort()
                     return [self.handles[h] for h in it["rets"]]
 
-                self.done.append(builder.subgraph(fn, ins, outs, name=it["gname"]))
+                try:
+                    self.done.append(builder.subgraph(fn, ins, outs, name=it["gname"]))
+                except Exception:
+                    # the dropped graph stays in the builder tree (`_all_graphs`): shown like a finished one
+                    if it.get("fault") and captured:
+                        self.done.append(captured[0])
+                    raise
             elif k == "X":
                 v = self.handles[it["h"]]
                 if it.get("dt"):
@@ -392,8 +446,11 @@ class RealExec:
         def node(n):
             ga = {a.name: str(gidx.get(id(a.value), -1)) for a in n.attributes.values() if a.type == ir.AttributeType.GRAPH}
             gs = [ga.pop(k) for k in ("then_branch", "else_branch", "body") if k in ga] + list(ga.values())
+            # an unnamed body node stays unnamed through `call_inline`; `ir.Graph.append` then lets onnx_ir's
+            # NameAuthority name it `node_{op}_{k}` (library behaviour, not modelled): canonicalised to "no name"
+            nname = "" if re.fullmatch(r"node_.+_\d+", n.name or "") else (n.name or "")
             return "|".join(
-                [n.name or "", n.domain, n.op_type + (":" + n.overload if n.overload else ""), ",".join(nm(i) for i in n.inputs),
+                [nname, n.domain, n.op_type + (":" + n.overload if n.overload else ""), ",".join(nm(i) for i in n.inputs),
                  ",".join(nm(o) for o in n.outputs), ",".join(gs), "&".join(f"{k}={v}" for k, v in real_attrs(n))]
             )
 
@@ -406,13 +463,28 @@ class RealExec:
         funcs = [f"{k[0]}:{k[1]}:{k[2]}" for k in self.gb.functions.keys()]
         return (
             " ## ".join(parts) + " ## INIT " + ",".join(self.g.initializers.keys())
-            + " ## FUNCS " + ",".join(funcs) + " ## OPEN 0 ## ERR -"
+            + " ## FUNCS " + ",".join(funcs) + " ## OPEN 0 ## ERR " + (",".join(self.errs) or "-")
         )
 
     def proto(self):
         ir = self.r.ir
         m = ir.Model(self.g, ir_version=10, functions=list(self.gb.functions.values()))
         return ir.to_proto(m)
+
+
+class _Abort(Exception):
+    """raised by a generated trace function / forward: the user's own exception."""
+
+
+def err_token(e) -> str:
+    m = str(e)
+    if "Too many inputs" in m:
+        return "too-many-inputs"
+    if "does not match" in m or "were declared in outputs" in m:
+        return "outputs-mismatch"
+    if "Cannot pop_module" in m:
+        return "pop-empty"
+    return type(e).__name__
 
 
 def run_real(case):
@@ -581,7 +653,7 @@ class Replay:
             elif k == "C":
                 h += self.case["fn_nout"][it["f"]]
             elif k == "L":
-                h += self.case["fn_nout"][it["f"]]
+                h += 0 if it.get("fault") else self.case["fn_nout"][it["f"]]
             elif k == "S":
                 h = self.count(it["body"], h + len(it["inputs"]))
         return h
@@ -619,6 +691,8 @@ class Replay:
                 for j in range(n):
                     self.env[h + j] = res[j]
                 h += n
+            elif k in ("C", "L") and it.get("fault"):
+                pass  # refused: nothing is traced
             elif k in ("C", "L"):
                 impl = self.case["fn_impl"][it["f"]]
                 with np.errstate(all="ignore"):
@@ -680,6 +754,7 @@ class TraceGen:
         # visible values: (handle, dt, shape, typed)
         self.vis: list[tuple] = []
         self.alias: set[int] = set()
+        self.faults = 0.0  # probability of a fault item (a call that raises and is caught; then the trace goes on)
 
     def fresh(self, base="y"):
         self.uid += 1
@@ -869,6 +944,10 @@ class TraceGen:
         name, obj, impl, nin, nout, attrs = self.fntab[fi]
         if name == "swapneg":
             inline = True  # onnxruntime refuses a FunctionProto whose output is one of its inputs: inline only
+        if inline and in_sub and name in ("pf_unnamed", "pf_two", "hf_mixed"):
+            # unnamed body nodes are named by onnx_ir's per-graph NameAuthority (`node_Neg_0` in the main graph and
+            # again in a subgraph): kept to the main graph here, see design_notes/C18.md (round 5)
+            inline = False
 
         siblings = [j for j, f in enumerate(self.fntab) if f[0] == name and j != fi]
         if siblings:
@@ -900,7 +979,8 @@ class TraceGen:
             self.stats["inline"] += 1
             self.stats["inline_prefix"] += pfx != ""
             self.stats["inline_named"] += o is not None
-            typed = all(s[3] for s in srcs)
+            # (values of a parsed FunctionProto carry no type information: the clones' outputs stay untyped)
+            typed = all(s[3] for s in srcs) and name not in ("pf_unnamed", "pf_two", "hf_mixed")
         else:
             if rng.random() < 0.25 and nin == 2:
                 args[1] = ["s", rng.choice([1.5, 0.5, 2.0]), "f32"]  # literal operand of a function call
@@ -916,6 +996,12 @@ class TraceGen:
         for _ in range(nout):
             self.vis.append((self.h, "f32", (3,), typed))
             self.h += 1
+        if inline and name in ("pf_unnamed", "pf_two", "hf_mixed"):
+            self.stats["inline_unnamed_body"] += 1
+            if force_fi is None and rng.random() < 0.75:
+                # the same function inlined again into the same builder tree: the second set of clones
+                self.stats["inline_unnamed_body_twice"] += 1
+                self.gen_call(items, in_sub, inline=True, force_fi=fi)
         if siblings and force_fi is None and rng.random() < 0.7:
             # another overload of the same (domain, name) in the same trace, as a node or inlined
             self.gen_call(items, in_sub, inline=rng.random() < 0.4, force_fi=rng.choice(siblings))
@@ -971,37 +1057,117 @@ class TraceGen:
         u = self.fresh("")
         inputs = [{"name": f"iter{u}", "dt": "i64", "shape": []}, {"name": f"cin{u}", "dt": "b", "shape": []},
                   {"name": f"acc{u}", "dt": acc[1], "shape": list(acc[2])}]
+        # a second loop-carried value given as an untyped Python literal whose type differs from the first carried
+        # value's (Loop's `v_initial` is a *heterogeneous* variadic: the literal must keep its own Python type)
+        lit2 = None
+        if self.rng.random() < 0.45:
+            if acc[1] == "i64":
+                lit2, dt2 = self.rng.choice([0.5, 1.5, -2.5]), "f32"
+            else:
+                lit2, dt2 = self.rng.choice([2, 3, -1]), "i64"
+            inputs.append({"name": f"acc2_{u}", "dt": dt2, "shape": []})
+            self.stats["loop_literal_carried"] += 1
+            self.stats["loop_literal_carried_" + dt2] += 1
 
         def body_fn(body):
-            h_cin, h_acc = self.h - 2, self.h - 1
+            k = 1 if lit2 is not None else 0
+            h_cin, h_acc = self.h - 2 - k, self.h - 1 - k
+            h_acc2 = self.h - 1
             self.emit_op(body, "Identity", [["r", h_cin]], [("b", ())], True)
             h_cout = self.h - 1
             for _ in range(self.rng.randint(0, 2)):
                 self.gen_item(body, depth + 1)
             # the carried value must come from the loop state (keeps the replay bounded)
-            self.vis = [v for v in self.vis if True]
-            src_ok = [v for v in self.vis if v[0] == h_acc]
-            assert src_ok
             self.emit_op(body, self.rng.choice(UN[want[0]]), [["r", h_acc]], [want], True)
-            return [h_cout, self.h - 1]
+            rets = [h_cout, self.h - 1]
+            if lit2 is not None:
+                # Add(acc2, acc2) / Neg / Abs: a value whose dtype mistakes show in the result (0.5 as INT64 is 0)
+                op2 = self.rng.choice(["Add", "Neg", "Abs", "Identity"])
+                self.emit_op(body, op2, [["r", h_acc2]] * (2 if op2 == "Add" else 1), [(dt2, ())], True)
+                rets.append(self.h - 1)
+            return rets
 
-        items.append(self.gen_sub(f"body_{self.fresh('g')}", inputs, body_fn, 2))
+        items.append(self.gen_sub(f"body_{self.fresh('g')}", inputs, body_fn, 2 + (lit2 is not None)))
         gi = self.ndone - 1
         m = self.rng.choice([0, 1, 2, 3])
-        o = self.outs_for(1, depth > 0)
+        n_out = 1 + (lit2 is not None)
+        o = self.outs_for(n_out, depth > 0)
         cond_arg = ["r", cond[0]]
         if self.rng.random() < 0.3:
             cond_arg = ["s", self.rng.choice([True, True, False]), None]
             self.stats["bool_lit_no_sibling"] += 1
             self.stats["bool_lit_loop"] += 1
-        items.append({"k": "O", "op": "Loop", "args": [["s", m, "i64"], cond_arg, ["r", acc[0]]], "outs": o,
+        args = [["s", m, "i64"], cond_arg, ["r", acc[0]]]
+        if lit2 is not None:
+            args.append(["s", lit2, dt2])  # the dtype the literal rule gives it: its own Python type
+        items.append({"k": "O", "op": "Loop", "args": args, "outs": o,
                       "nname": self.nname_for(depth > 0), "graphs": [gi], "gattr": ["body"], "attrs": {}})
         self.vis.append((self.h, want[0], want[1], False))
         self.h += 1
+        if lit2 is not None:
+            self.vis.append((self.h, dt2, (), False))
+            self.h += 1
         self.stats["Loop"] += 1
         self.stats[f"sub_depth_{depth + 1}"] += 1
 
+    def gen_fault(self, items, depth):
+        """a call that fails — refused by the builder, or the user's trace function raises — and is caught by the
+        traced program, which goes on with the same builder."""
+        rng, st = self.rng, self.stats
+        kind = rng.choice(["inline_too_many", "inline_too_many", "inline_outs_mismatch", "pop_empty", "sub_abort",
+                           "sub_abort", "sub_mismatch"])
+        cands = [j for j, f in enumerate(self.fntab) if f[0] not in ("sel", "swapneg")]
+        if kind == "pop_empty" and (depth > 0 or self.scope_depth > 0):
+            kind = "sub_abort"
+        if kind.startswith("inline"):
+            fi = rng.choice(cands)
+            name, _obj, _impl, nin, nout, _attrs = self.fntab[fi]
+            extra = 1 if kind == "inline_too_many" else 0
+            srcs = [self.pick(lambda v: v[1] == "f32" and v[2] == (3,)) for _ in range(nin + extra)]
+            if any(x is None for x in srcs):
+                return self.gen_op(items, depth > 0)
+            args = [["r", x[0]] for x in srcs]
+            if rng.random() < 0.3:
+                args[-1] = ["s", rng.choice([1.5, 0.5, 7.0]), "f32"]  # promoted before the refusal
+                st["fault_literal_operand"] += 1
+            pfx = rng.choice(["", "blk", "f.0"]) if (kind == "inline_outs_mismatch" or rng.random() < 0.45) else ""
+            o = None
+            if kind == "inline_outs_mismatch":
+                o = [self.fresh() for _ in range(nout + 1)]
+            elif rng.random() < 0.3:
+                o = [self.fresh() for _ in range(nout)]
+            items.append({"k": "L", "f": fi, "args": args, "outs": o, "pfx": pfx, "attrs": {}, "fault": kind})
+            st["fault_" + kind + ("_prefixed" if pfx else "_plain")] += 1
+        elif kind == "pop_empty":
+            items.append({"k": "Q", "fault": kind})
+            st["fault_pop_empty"] += 1
+        else:
+            saved_scope = self.scope_depth
+            inputs = [] if rng.random() < 0.5 else [{"name": self.fresh("sin"), "dt": "f32", "shape": [3]}]
+
+            def body_fn(body):
+                for _ in range(rng.randint(0, 3)):
+                    self.gen_item(body, depth + 1)
+                self.gen_op(body, True)
+                return [self.h - 1]
+
+            it = self.gen_sub(f"dropped_{self.fresh('g')}", inputs, body_fn, 1)
+            it["fault"] = kind
+            if kind == "sub_abort":
+                it["abort"] = True
+            else:
+                it["declared"] = it["declared"] + [""]  # one value returned, two declared: build_graph raises
+            st["fault_" + kind] += 1
+            st["fault_dropped_body_with_push"] += any(b["k"] == "P" for b in it["body"])
+            st["fault_dropped_body_with_subgraph"] += any(b["k"] == "S" for b in it["body"])
+            items.append(it)
+            self.scope_depth = saved_scope
+        st["fault_items"] += 1
+        st["fault_in_subgraph"] += depth > 0
+
     def gen_item(self, items, depth):
+        if self.faults and depth < 2 and self.rng.random() < self.faults:
+            return self.gen_fault(items, depth)
         r = self.rng.random()
         in_sub = depth > 0
         if r < 0.62:
@@ -1070,16 +1236,57 @@ def refusal_cases(rng, stats):
     return out
 
 
+def fault_directed_cases(stats):
+    """one fixed history per opset containing every fault kind once, each followed by ordinary calls."""
+    out = []
+    for opset in (17, 21):
+        fntab = make_functions(opset)
+        fi1 = [i for i, f in enumerate(fntab) if f[0] == "negrelu"][0]
+        fi2 = [i for i, f in enumerate(fntab) if f[0] == "addmul"][0]
+        L = lambda f, args, outs, pfx, kind: {"k": "L", "f": f, "args": args, "outs": outs, "pfx": pfx, "attrs": {}, "fault": kind}
+        relu = lambda h: {"k": "O", "op": "Relu", "args": [["r", h]], "outs": ["a", 1], "nname": None, "attrs": {}}
+        sub = lambda name, body, rets, declared, kind, **kw: {"k": "S", "gname": name, "inputs": [], "body": body, "rets": rets,
+                                                            "declared": declared, "fault": kind, **kw}
+        tr = [{"k": "I", "name": "x", "dt": "f32", "shape": [3]},                       # h0
+              {"k": "Q", "fault": "pop_empty"},
+              relu(0),                                                                   # h1
+              {"k": "P", "name": "m"},
+              L(fi2, [["r", 0], ["r", 1], ["s", 7.0, "f32"]], None, "", "inline_too_many"),
+              L(fi1, [["r", 0]], ["a", "b"], "pre", "inline_outs_mismatch"),
+              relu(1),                                                                   # h2
+              sub("dropped_a", [{"k": "P", "name": "inner"}, relu(0)], [3], [""], "sub_abort", abort=True),   # h3
+              relu(2),                                                                   # h4
+              sub("dropped_b", [relu(0)], [5], ["", ""], "sub_mismatch"),               # h5
+              relu(4),                                                                   # h6
+              L(fi1, [["r", 0], ["r", 1]], None, "blk", "inline_too_many"),              # D20j class
+              relu(6),                                                                   # h7
+              {"k": "X", "h": 7, "name": "out", "dt": "f32", "shape": [3]}]
+        c = wrap_case(tr, fntab, "auto", opset)
+        c["faults"] = True
+        for k in ("fault_inline_too_many_plain", "fault_inline_too_many_prefixed", "fault_sub_abort", "fault_sub_mismatch",
+                  "fault_then_continue", "fault_pop_empty", "fault_inline_outs_mismatch_prefixed"):
+            stats[k] += 1
+        out.append(c)
+    return out
+
+
 OPSETS = [17, 18, 21]  # ops whose input/attribute signature changed in between: Reduce{Max,Min,Mean}, Split
 
 
-def new_case(rng, mode, n_items, stats):
+def new_case(rng, mode, n_items, stats, faults=0.0):
     opset = rng.choice(OPSETS)
     stats[f"opset_{opset}"] += 1
     fntab = make_functions(opset)
     g = TraceGen(rng, fntab, mode, stats, opset)
+    g.faults = faults
     trace = g.gen_trace(n_items)
-    return wrap_case(trace, fntab, mode, opset)
+    c = wrap_case(trace, fntab, mode, opset)
+    if faults:
+        c["faults"] = True
+        top = [i for i, it in enumerate(trace) if it.get("fault")]
+        stats["fault_traces"] += bool(top)
+        stats["fault_then_continue"] += bool(top) and any(it["k"] in ("O", "C", "L") and not it.get("fault") for it in trace[top[0] + 1:])
+    return c
 
 
 def wrap_case(trace, fntab, mode, opset=None):
@@ -1096,7 +1303,8 @@ def wrap_case(trace, fntab, mode, opset=None):
 
 
 def case_json(case):
-    return {"mode": case["mode"], "opset": case.get("opset"), "trace": case["trace"], "fn_names": case["fn_names"]}
+    return {"mode": case["mode"], "opset": case.get("opset"), "trace": case["trace"], "fn_names": case["fn_names"],
+            **({"faults": True} if case.get("faults") else {})}
 
 
 # --------------------------------------------------------------------------- known-finding predicates (builder)
@@ -1135,7 +1343,12 @@ def underscore_digit_callee(case) -> bool:
 
 def classify_builder_failure(case, dup_vals, dup_nodes) -> str | None:
     """which open finding (if any) explains duplicate names of this case."""
+    if dup_vals.get("__scope_leak_prefixed_inline__"):
+        # call_inline(_prefix=...) raising "Too many inputs" left the prefix on the scope stack: D20j, fixed in /repo
+        # 15c1bb3 — no longer an open finding, so a recurrence is reported as a VIOLATION by the verdict logic
+        return "D20j"
     dups = {**dup_vals, **dup_nodes}
+    dups.pop("__scope_leak_prefixed_inline__", None)
     if not dups:
         return None
     # (D20a — the same automatic name in two different graphs — is fixed in /repo e9794aa: such a
@@ -1152,7 +1365,10 @@ EXECUTED: list = []  # every builder case run in this process, in order (process
 
 
 def case_from_json(cs):
-    return wrap_case(cs["trace"], make_functions(cs.get("opset")), cs.get("mode", "none"), cs.get("opset"))
+    c = wrap_case(cs["trace"], make_functions(cs.get("opset")), cs.get("mode", "none"), cs.get("opset"))
+    if cs.get("faults"):
+        c["faults"] = True
+    return c
 
 
 def subreplay(path) -> int:
@@ -1238,6 +1454,16 @@ def check_builder_cases(run, drv, cases, stats, rng, do_ort=True):
         real = ex.show()
         if mline is not None and real != mline:
             problems.append((c, "tie", first_diff(real, mline)))
+        if c.get("faults"):
+            stats["fault_refusals_observed"] += len(ex.errs)
+            if ex.scope_changes:
+                # exception safety of the module scopes: a call that raised must leave every scope stack as it was
+                # (else every later value / initializer name carries a scope no module pushed; the one known way,
+                #  D20j, is fixed in /repo 15c1bb3 and modelled as fixed: any change here is a VIOLATION)
+                stats["fault_scope_changed"] += 1
+                only_d20j = all(x.startswith("inline_too_many:") for x in ex.scope_changes)
+                problems.append((c, "property", "a refused call changed the module scope stack: " + "; ".join(ex.scope_changes[:2]),
+                                 {"__scope_leak_prefixed_inline__": only_d20j}, {}))
         # ---- property oracle on the real serialized model
         try:
             proto = ex.proto()
@@ -1426,7 +1652,18 @@ def witness_d20d():
 # --------------------------------------------------------------------------- nn stream
 
 
-NN_CTX = {"cond": None, "depth": 0, "maxdepth": 0, "param_depth": 0, "uid": 0}
+NN_CTX = {"cond": None, "depth": 0, "maxdepth": 0, "param_depth": 0, "uid": 0, "abort_at": None, "events": 0,
+          "abort_depth": 0}
+
+
+def _nn_event():
+    """one step of a generic forward (entry, after each parameter use, after each child); the `abort_at`-th raises."""
+    if NN_CTX["abort_at"] is None:
+        return
+    NN_CTX["events"] += 1
+    if NN_CTX["events"] == NN_CTX["abort_at"]:
+        NN_CTX["abort_depth"] = NN_CTX["depth"]
+        raise _Abort()
 
 
 def nn_classes():
@@ -1437,11 +1674,13 @@ def nn_classes():
         """forward uses every own parameter and visits every registered child once, in order."""
 
         def forward(self, op, x):
+            _nn_event()
             for p in self._parameters.values():
                 x = op.Add(x, p)
                 NN_CTX["param_depth"] = max(NN_CTX["param_depth"], NN_CTX["depth"])
             for c in self._modules.values():
                 x = visit(c, op, x)
+                _nn_event()
             return x
 
     class Ctl(Gen):
@@ -1450,6 +1689,7 @@ def nn_classes():
         with modules entered in between."""
 
         def forward(self, op, x):
+            _nn_event()
             for p in self._parameters.values():
                 x = op.Add(x, p)
                 NN_CTX["param_depth"] = max(NN_CTX["param_depth"], NN_CTX["depth"])
@@ -1463,6 +1703,7 @@ def nn_classes():
                     y = x
                     for c in self._modules.values():
                         y = visit(c, op2, y)
+                        _nn_event()
                     return op2.Identity(y)
                 finally:
                     NN_CTX["depth"] -= 1
@@ -1495,8 +1736,11 @@ def nn_classes():
     return Gen, Ctl, visit, ref
 
 
-def run_nn_real(prog, numeric=False):
-    """execute a construction program on the real classes; returns dict of observations."""
+def run_nn_real(prog, numeric=False, abort_at=None):
+    """execute a construction program on the real classes; returns dict of observations.
+
+    abort_at = k: the root is first called with a forward that raises at its k-th step (the traced program catches
+    the exception), then called again on the same builder — a history of two calls."""
     r = R()
     nn, ir, B = r.nn, r.ir, r.B
     Gen, Ctl, visit, ref = nn_classes()
@@ -1551,7 +1795,20 @@ def run_nn_real(prog, numeric=False):
     gb = B.GraphBuilder(g)
     x = gb.input("x", ir.DataType.FLOAT, [3])
     NN_CTX.update(cond=gb.input("c", ir.DataType.BOOL, []), depth=0, maxdepth=0, param_depth=0)
-    obs = {"callable": True, "numeric": None}
+    obs = {"callable": True, "numeric": None, "aborted": False, "abort_scope": None}
+    if abort_at is not None:
+        NN_CTX.update(abort_at=abort_at, events=0, abort_depth=0)
+        try:
+            root(gb.op, x)
+        except _Abort:
+            obs["aborted"] = True
+            obs["abort_in_subgraph"] = NN_CTX["abort_depth"] > 0
+            obs["abort_scope"] = [n for n, _ in gb._scope_stack]
+            obs["abort_realized"] = sum(1 for p in params if getattr(p, "_realized", False))
+        except NotImplementedError:
+            pass
+        finally:
+            NN_CTX.update(abort_at=None, depth=0)
     try:
         y = root(gb.op, x)
         if y is x:  # a tree without parameters: do not rename the graph input
@@ -1767,7 +2024,8 @@ def check_nn_cases(run, drv, progs, stats):
     problems = []
     # the model builds a control module (`MC`) like a Module and is told *where* in the final tree the control
     # modules sit (`CTL|path`), read off the real objects: there the children run in a sub-builder
-    obs_all = [run_nn_real(p["prog"], numeric=p.get("ctl", False) or i % 4 == 0) for i, p in enumerate(progs)]
+    obs_all = [run_nn_real(p["prog"], numeric=p.get("ctl", False) or i % 4 == 0, abort_at=p.get("abort_at"))
+               for i, p in enumerate(progs)]
     outs = drv.ask([
         "nn " + " ".join(["M" + t[2:] if t.startswith("MC|") else t for t in p["prog"]]
                          + ["CTL|" + ("/".join(path) or "@") for path in o["ctl_paths"]])
@@ -1807,6 +2065,16 @@ def check_nn_cases(run, drv, progs, stats):
             problems.append((p, "tie", f"rootKey: {want} vs model {m_rootkeys}"))
         n_params = len({pid for _, pid in obs["np"]})  # distinct Parameter objects reachable from the root
         stats["nn_params"] += n_params
+        stats["nn_called_twice_complete"] += p.get("abort_at") is not None and not obs["aborted"]
+        if obs["aborted"]:
+            # history: forward raised part-way (caught), then the root was called again on the same builder; the
+            # model's prediction is that of ONE undisturbed call (theorem realize_after_abort)
+            stats["nn_abort_then_call"] += 1
+            stats["nn_abort_partial"] += 0 < obs["abort_realized"] < n_params
+            stats["nn_abort_in_subgraph"] += obs["abort_in_subgraph"]
+            if obs["abort_scope"]:
+                problems.append((p, "property", f"after an exception inside forward() the builder's scope stack is {obs['abort_scope']}, not empty"))
+                continue
         if sorted(obs["init"]) != sorted(want) or len(obs["init"]) != n_params or [k for k, _ in obs["np"]] != obs["sd"]:
             problems.append((p, "property", f"initializers {sorted(obs['init'])} vs root.name + state_dict keys {sorted(want)} ({n_params} parameters)"))
         elif obs["numeric"]:
@@ -1875,6 +2143,23 @@ def nn_witnesses():
     c = gb.input("c", ir.DataType.BOOL, [])
     net(gb.op, x, c)
     res["D20e"] = (list(g.initializers.keys()), ["net." + k for k in net.state_dict()])
+
+    # D20j (fixed in /repo 15c1bb3; must-pass regression case): a refused call_inline(..., _prefix=p) (too many
+    # operands) left p on the scope stack; the program catches the error and calls a module afterwards
+    net = Gen("net")
+    net.fc = lin()
+    g = ir.Graph(name="main", inputs=[], outputs=[], nodes=[], opset_imports={"": OPSET})
+    gb = B.GraphBuilder(g)
+    x = gb.input("x", ir.DataType.FLOAT, [3])
+    f1 = [f[1] for f in make_functions() if f[0] == "negrelu"][0]
+    try:
+        gb.op.call_inline(f1, x, x, _prefix="blk")
+        raised = False
+    except ValueError:
+        raised = True
+    net(gb.op, x)
+    res["D20j"] = (list(g.initializers.keys()), ["net." + k for k in net.state_dict()])
+    res["D20j_raised"] = raised
     return res
 
 
@@ -2006,7 +2291,7 @@ def main(run: core.Run) -> None:
 
     all_problems = []
     # ---- builder stream
-    n_none = run.size(220, 2000) * scale
+    n_none = run.size(205, 2000) * scale
     n_expl = run.size(110, 1000) * scale
     n_auto = run.size(110, 1000) * scale
     plan = [("none", n_none), ("explicit", n_expl), ("auto", n_auto)]
@@ -2022,6 +2307,16 @@ def main(run: core.Run) -> None:
     for c in list(distinct)[:3]:
         run.sample(c[:600])
     all_problems += check_builder_cases(run, drv, refusal_cases(rng, stats), stats, rng)
+    # ---- exception histories: calls that raise (refused by the builder, or the user's trace function raises) are
+    #      caught by the traced program, which goes on with the same builder
+    fcases = []
+    for i in range(run.size(36, 900) * scale):
+        c = new_case(rng, ("none", "auto", "explicit")[i % 3], rng.randint(4, 12), stats, faults=0.22)
+        fcases.append(c)
+        distinct.add(model_line(c))
+    fcases += fault_directed_cases(stats)
+    for k in range(0, len(fcases), 100):
+        all_problems += check_builder_cases(run, drv, fcases[k:k + 100], stats, rng)
 
     # ---- nn stream
     n_nn_plain = run.size(500, 6000) * scale
@@ -2039,6 +2334,11 @@ def main(run: core.Run) -> None:
         progs.append({"prog": prog, "explicit": False, "diverging": False, "ctl": True})
         distinct.add(" ".join(prog))
     progs = [{"prog": p.split(), "explicit": False, "diverging": False, "ctl": "MC|" in p} for p in NN_CORPUS] + progs
+    # histories: every 5th program calls the root twice on one builder — the first forward raises at a random step
+    # (or, when the step number exceeds the forward's length, completes)
+    for i, p in enumerate(progs):
+        if i % 5 == 2:
+            p["abort_at"] = rng.randint(1, 9)
     for k in range(0, len(progs), 250):
         all_problems += check_nn_cases(run, drv, progs[k:k + 250], stats)
     for p in progs[:3]:
@@ -2084,7 +2384,9 @@ def main(run: core.Run) -> None:
         else:
             all_problems.append(({"witness": "D20i"}, "property", what, {}, {}))
     nw = nn_witnesses()
-    for fid in ("D20b", "D20e"):
+    if not nw["D20j_raised"]:
+        all_problems.append(({"witness": "D20j"}, "tie", "call_inline with too many operands and a _prefix no longer raises"))
+    for fid in ("D20b", "D20e", "D20j"):
         got, want = nw[fid]
         if sorted(got) != sorted(want):
             if fid in findings:
@@ -2116,7 +2418,7 @@ def main(run: core.Run) -> None:
         stats["known_in_stream_" + k] = v
 
     def jcase(c):
-        return case_json(c) if "trace" in c else {k: v for k, v in c.items() if k in ("prog", "explicit", "diverging", "witness", "ctl", "partition")}
+        return case_json(c) if "trace" in c else {k: v for k, v in c.items() if k in ("prog", "explicit", "diverging", "witness", "ctl", "partition", "abort_at")}
 
     if prop_fail:
         prop_fail.sort(key=lambda x: len(json.dumps(jcase(x[0]))))
@@ -2157,7 +2459,10 @@ def main(run: core.Run) -> None:
     )
     if stats["builder_cases"] and stats["builder_real_error"] > 0.3 * stats["builder_cases"]:
         raise core.Infra("generator degenerated: >30% of traces refused by the builder")
-    for need in ("If", "Loop", "inline", "call", "two_overloads_in_trace", "call_overloaded_name", "inline_passthrough", "default_attr_omitted", "plain_attr", "nested_list_after_naming", "nn_param_in_depth2_subgraph", "bool_lit_where", "bool_lit_if", "bool_lit_loop", "bool_lit_call", "bool_lit_sibling", "none_operand", "keyword_input_after_omitted", "refusal_pop_empty", "refusal_inline_too_many_inputs", "refusal_inline_outputs_mismatch", "inline_literal_arg", "part_ok", "part_extra-kwargs", "part_missing", "part_too-many", "reduce_axes_attr", "default_attr_omitted_s_leaky0", "default_attr_omitted_s_softmax0", "lit_list", "multi_output", "push", "append_after_naming", "slice", "kind_seq", "kind_list"):
+    for need in ("If", "Loop", "inline", "call", "two_overloads_in_trace", "call_overloaded_name", "inline_passthrough", "default_attr_omitted", "plain_attr", "nested_list_after_naming", "nn_param_in_depth2_subgraph", "bool_lit_where", "bool_lit_if", "bool_lit_loop", "bool_lit_call", "bool_lit_sibling", "none_operand", "keyword_input_after_omitted", "refusal_pop_empty", "refusal_inline_too_many_inputs", "refusal_inline_outputs_mismatch", "inline_literal_arg", "part_ok", "part_extra-kwargs", "part_missing", "part_too-many", "reduce_axes_attr", "default_attr_omitted_s_leaky0", "default_attr_omitted_s_softmax0", "lit_list", "multi_output", "push", "append_after_naming", "slice", "kind_seq", "kind_list",
+                 "fault_inline_too_many_prefixed", "fault_inline_too_many_plain", "fault_sub_abort", "fault_sub_mismatch",
+                 "fault_then_continue", "fault_refusals_observed", "nn_abort_then_call", "nn_abort_partial",
+                 "inline_unnamed_body_twice", "loop_literal_carried_f32", "loop_literal_carried_i64"):
         if not stats[need]:
             raise core.Infra(f"generator never produced construct {need}")
 
